@@ -22,6 +22,8 @@ pub struct PacketConn<RW: Read + Write> {
     seq: u8,
     // the last packet written was a full one, so a final (possibly empty) packet must follow
     last_full: bool,
+    // an error that could not be reported where it happened (in a destructor)
+    deferred_err: Option<io::Error>,
 }
 
 impl<W: Read + Write> Write for PacketConn<W> {
@@ -37,6 +39,9 @@ impl<W: Read + Write> Write for PacketConn<W> {
     }
 
     fn flush(&mut self) -> io::Result<()> {
+        if let Some(e) = self.deferred_err.take() {
+            return Err(e);
+        }
         self.maybe_end_packet()?;
         self.rw.flush()
     }
@@ -55,6 +60,7 @@ impl<RW: Read + Write> PacketConn<RW> {
             to_write: vec![0, 0, 0, 0],
             seq: 0,
             last_full: false,
+            deferred_err: None,
             rw,
         }
     }
@@ -100,6 +106,11 @@ impl<W: Read + Write> PacketConn<W> {
 impl<W: Read + Write> PacketConn<W> {
     pub fn set_seq(&mut self, seq: u8) {
         self.seq = seq;
+    }
+
+    /// Remember an error until the next flush, which will report it.
+    pub fn defer_err(&mut self, e: io::Error) {
+        self.deferred_err.get_or_insert(e);
     }
 }
 
